@@ -348,6 +348,22 @@ impl Model for QosModel {
                 });
                 rn(&r)
             }
+            "SetQosDefault" => {
+                let r = run(async {
+                    let r = match &self.ent {
+                        Ent::Writer(w) => w.set_qos(QosKind::Default).await,
+                        Ent::Reader(r) => r.set_qos(QosKind::Default).await,
+                        Ent::Topic(t) => t.set_qos(QosKind::Default).await,
+                        Ent::Publisher(p, _) => p.set_qos(QosKind::Default).await,
+                        Ent::Subscriber(s, _) => s.set_qos(QosKind::Default).await,
+                        Ent::Participant => self.p1.as_ref().unwrap().set_qos(QosKind::Default).await,
+                        Ent::None => panic!("no entity"),
+                    };
+                    settle(500).await;
+                    r
+                });
+                rn(&r)
+            }
             "Enable" => {
                 let r = run(async {
                     let r = match &self.ent {
